@@ -42,6 +42,18 @@ struct Cls {
 };
 struct Row { std::string a; int n = 0; Color col = Color::Green; double d = 0; template <class A> void Serialize(A& ar) { ar << KeyValue("a", a) << KeyValue("n", n, Required()) << KeyValue("col", col) << KeyValue("d", d); } };
 
+// first-use races: function-local statics (std::pair key names, ...) are initialised by the first serialization of a type.  Every case takes
+// a pair type that no earlier case of this process has touched, and all its threads serialize it at once.
+template <int N> struct Fresh { int v = N; template <class A> void Serialize(A& a) { a << KeyValue("v", v); } };
+template <int N> std::string fresh_pair_op(int which) {
+	std::pair<int, Fresh<N>> p{ which, Fresh<N>{} }; std::string out;
+	if (which & 1) { SaveObject<JsonArchive>(p, out); std::pair<int, Fresh<N>> q; LoadObject<JsonArchive>(q, out); return out + "/" + std::to_string(q.first) + "/" + std::to_string(q.second.v); }
+	SaveObject<MsgPackArchive>(p, out); std::pair<int, Fresh<N>> q; LoadObject<MsgPackArchive>(q, out); return vf::hex(out) + "/" + std::to_string(q.first) + "/" + std::to_string(q.second.v);
+}
+template <int... Ns> std::string fresh_dispatch(int idx, int which, std::integer_sequence<int, Ns...>) { std::string r; ((idx == Ns ? (r = fresh_pair_op<Ns>(which), 0) : 0), ...); return r; }
+constexpr int kFreshTypes = 48;
+int g_freshCounter = 0;
+
 std::string gen_str(vf::Src& s, size_t maxLen) { static const char* pool[] = { "a", "Z", "0", "_", "\xD0\x96", "\xE2\x82\xAC", "\xF0\x9F\x98\x80", "x" }; std::string r = "x"; for (size_t n = s.draw(maxLen + 1); n > 0; n--) r += pool[s.draw(8)]; r.push_back('y'); return r; }
 In gen_in(vf::Src& s) { In r; r.q = static_cast<int>(s.draw(20000)) - 10000; r.t = gen_str(s, 30); return r; }
 Cls gen_cls(vf::Src& s) {
@@ -55,7 +67,7 @@ std::vector<Row> gen_rows(vf::Src& s) { std::vector<Row> r; for (size_t n = 1 + 
 struct Shared { Cls cls[2]; std::vector<Row> rows; std::string mp[2], js[2], xm[2], cs; std::string jsInvalid; std::string isoDates[4]; std::string numbers[4]; };
 
 struct Op { int kind = 0; int which = 0; int enc = 0; bool bom = false; uint64_t arg = 0; };
-enum { OpSaveMp, OpSaveJs, OpSaveXm, OpSaveCs, OpSaveMpStream, OpSaveJsStream, OpSaveXmStream, OpSaveCsStream, OpLoadMp, OpLoadJs, OpLoadXm, OpLoadCs, OpLoadMpStream, OpLoadJsStream, OpLoadXmStream, OpLoadCsStream, OpLoadInvalid, OpEnum, OpNumber, OpChrono, OpUtf, OpPair, OpSkipPolicy, OpCount };
+enum { OpSaveMp, OpSaveJs, OpSaveXm, OpSaveCs, OpSaveMpStream, OpSaveJsStream, OpSaveXmStream, OpSaveCsStream, OpLoadMp, OpLoadJs, OpLoadXm, OpLoadCs, OpLoadMpStream, OpLoadJsStream, OpLoadXmStream, OpLoadCsStream, OpLoadInvalid, OpEnum, OpNumber, OpChrono, OpUtf, OpPair, OpSkipPolicy, OpFreshPair, OpCount };
 
 template <class T> std::string resave(T& v) { std::string out; SaveObject<JsonArchive>(v, out); return out; }
 std::string run_op(const Op& op, const Shared& sh) {
@@ -85,16 +97,17 @@ std::string run_op(const Op& op, const Shared& sh) {
 		case OpUtf: { const std::string& t = sh.cls[op.which].s; auto u16 = Convert::To<std::u16string>(t); auto u32 = Convert::To<std::u32string>(u16); return Convert::To<std::string>(u32) + "/" + std::to_string(u16.size()); }
 		case OpPair: { std::pair<std::string, int> p = sh.cls[op.which].pr; std::string out; SaveObject<JsonArchive>(p, out); std::pair<std::string, int> q; LoadObject<JsonArchive>(q, out); return out + "/" + q.first + "/" + std::to_string(q.second); }
 		case OpSkipPolicy: { SerializationOptions o2; o2.mismatchedTypesPolicy = MismatchedTypesPolicy::Skip; o2.overflowNumberPolicy = OverflowNumberPolicy::Skip; o2.maxValidationErrors = 1 + static_cast<uint32_t>(op.arg % 3); Cls c; try { LoadObject<JsonArchive>(c, sh.jsInvalid, o2); return "loaded"; } catch (const ValidationException& e) { return vf::cat("validation:", e.GetValidationErrors().size(), ":", e.GetValidationErrors().begin()->first); } }
+		case OpFreshPair: return fresh_dispatch(static_cast<int>(op.arg), op.which, std::make_integer_sequence<int, kFreshTypes>());
 		default: return "?";
 		}
 	}
 	catch (const std::exception& e) { return std::string("exception: ") + e.what(); }
 }
-const char* kOpNames[] = { "save-msgpack", "save-json", "save-xml", "save-csv", "save-msgpack-stream", "save-json-stream", "save-xml-stream", "save-csv-stream", "load-msgpack", "load-json", "load-xml", "load-csv", "load-msgpack-stream", "load-json-stream", "load-xml-stream", "load-csv-stream", "load-validation-failing", "enum", "number", "chrono", "utf", "pair", "skip-policy" };
+const char* kOpNames[] = { "save-msgpack", "save-json", "save-xml", "save-csv", "save-msgpack-stream", "save-json-stream", "save-xml-stream", "save-csv-stream", "load-msgpack", "load-json", "load-xml", "load-csv", "load-msgpack-stream", "load-json-stream", "load-xml-stream", "load-csv-stream", "load-validation-failing", "enum", "number", "chrono", "utf", "pair", "skip-policy", "fresh-pair-type" };
 
 } // namespace
 
-VF_PROPERTY(concurrent_schedule, 1, "schedule of 2..4 threads x 2..10 operations each out of 23 kinds (SaveObject / LoadObject through MessagePack, JSON, XML, CSV from memory and through string streams in 5 encodings, validation-failing and policy-skipping loads, std::pair, Convert::To of enums, numbers, ISO dates, UTF) on thread-local targets plus shared read-only source objects, input buffers, default options and enum tables; released together by a spin barrier; oracles: ThreadSanitizer (happens-before) reports no race, and every operation returns what it returned in a sequential run of the same schedule; non-trivial = at least two threads run an operation of the same kind or on the same shared input") {
+VF_PROPERTY(concurrent_schedule, 1, "schedule of 2..4 threads x 2..10 operations each out of 24 kinds (SaveObject / LoadObject through MessagePack, JSON, XML, CSV from memory and through string streams in 5 encodings, validation-failing and policy-skipping loads, std::pair, Convert::To of enums, numbers, ISO dates, UTF) on thread-local targets plus shared read-only source objects, input buffers, default options and enum tables; released together by a spin barrier; oracles: ThreadSanitizer (happens-before) reports no race, and every operation returns what it returned in a sequential run of the same schedule; non-trivial = at least two threads run an operation of the same kind or on the same shared input") {
 	Shared sh; sh.cls[0] = gen_cls(c.src); sh.cls[1] = gen_cls(c.src); sh.rows = gen_rows(c.src);
 	for (int k = 0; k < 2; k++) { Cls x = sh.cls[k]; SaveObject<MsgPackArchive>(x, sh.mp[k]); SaveObject<JsonArchive>(x, sh.js[k]); SaveObject<XmlArchive>(x, sh.xm[k]); } { auto r = sh.rows; SaveObject<CsvArchive>(r, sh.cs); }
 	sh.jsInvalid = R"({"a":"not-a-number","s":"x","in":{"t":")" + std::string(80, 't') + R"("},"arr":[{"q":200000,"t":"y"},{"t":"z"}],"col":"NoSuchColor","d":1e999})";
@@ -102,16 +115,17 @@ VF_PROPERTY(concurrent_schedule, 1, "schedule of 2..4 threads x 2..10 operations
 	const size_t T = 2 + c.src.draw(3); std::vector<std::vector<Op>> plan(T); bool overlap = false; std::set<int> seenKinds;
 	const bool focused = c.src.coin(); const int focusKind = static_cast<int>(c.src.draw(OpCount));   // focused schedules: every thread hammers the same kind of operation
 	for (size_t t = 0; t < T; t++) { const size_t n = 2 + c.src.draw(9); std::set<int> mine; for (size_t k = 0; k < n; k++) { Op op; op.kind = focused && c.src.chance(3, 4) ? focusKind : static_cast<int>(c.src.draw(OpCount)); op.which = static_cast<int>(c.src.draw(2)); op.enc = static_cast<int>(c.src.draw(5)); op.bom = c.src.coin(); op.arg = c.src.draw(1000000); plan[t].push_back(op); mine.insert(op.kind); } for (int k : mine) if (!seenKinds.insert(k).second) overlap = true; }
-	c.nontrivial = overlap; c.label(vf::cat("threads=", T)); if (focused) c.label(vf::cat("focused:", kOpNames[focusKind]));
+	const int freshIdx = g_freshCounter++ % kFreshTypes; for (size_t t = 0; t < T; t++) { Op op; op.kind = OpFreshPair; op.which = static_cast<int>(c.src.draw(4)); op.arg = static_cast<uint64_t>(freshIdx); plan[t].insert(plan[t].begin(), op); } for (auto& pl : plan) for (auto& op : pl) if (op.kind == OpFreshPair) op.arg = static_cast<uint64_t>(freshIdx);
+	c.nontrivial = overlap; c.label(vf::cat("threads=", T)); if (g_freshCounter <= kFreshTypes) c.label("first-use-of-a-type"); if (focused) c.label(vf::cat("focused:", kOpNames[focusKind]));
 	{ std::string d = vf::cat("threads=", T, focused ? vf::cat(" focus=", kOpNames[focusKind]) : std::string()); for (size_t t = 0; t < T; t++) { d += vf::cat(" | t", t, ":"); for (auto& op : plan[t]) d += vf::cat(" ", kOpNames[op.kind]); } c.describe(d.substr(0, 400)); }
 	// sequential golden run
 	std::vector<std::vector<std::string>> golden(T), got(T);
-	for (size_t t = 0; t < T; t++) for (auto& op : plan[t]) golden[t].push_back(run_op(op, sh));
-	// concurrent run
+	// concurrent run first (so that first uses of lazily initialised statics happen concurrently), sequential reference run afterwards
 	const int before = g_tsanReports.load(); std::atomic<size_t> ready{ 0 }; std::atomic<bool> go{ false }; std::vector<std::thread> th;
 	for (size_t t = 0; t < T; t++) th.emplace_back([&, t] { ready.fetch_add(1); while (!go.load(std::memory_order_acquire)) { } for (auto& op : plan[t]) got[t].push_back(run_op(op, sh)); });
 	while (ready.load() < T) { } go.store(true, std::memory_order_release); for (auto& x : th) x.join();
 	const int races = g_tsanReports.load() - before;
+	for (size_t t = 0; t < T; t++) for (auto& op : plan[t]) golden[t].push_back(run_op(op, sh));
 	std::string d = vf::cat("threads=", T); for (size_t t = 0; t < T; t++) { d += vf::cat(" | t", t, ":"); for (auto& op : plan[t]) d += vf::cat(" ", kOpNames[op.kind], "(", op.which, ",", op.enc, ")"); }
 	if (races > 0) c.fail("ThreadSanitizer reports a data race between independent serializations", vf::cat(races, " report(s); see stderr of the replay | ", d));
 	for (size_t t = 0; t < T; t++) for (size_t k = 0; k < plan[t].size(); k++) if (got[t][k] != golden[t][k]) c.fail("an operation returns another result when it runs concurrently with operations of other threads", vf::cat("thread ", t, " op ", k, " ", kOpNames[plan[t][k].kind], ": sequential=", golden[t][k].substr(0, 200), " concurrent=", got[t][k].substr(0, 200), " | ", d));
